@@ -289,3 +289,30 @@ func VerifC19_GraceKeysArePerRollout() {
 	}
 	verifrt.Assert(len(a) == 9 && len(b) == 9, "C19.everyHelperIsKeyed")
 }
+
+// VerifC03_PatchStableServicePinsBeforeTheFirstBatch: PatchStableService is what the Init sub-state waits on before
+// the first batch is created.  It reports "done, no retry" only when the stable Service already selects the stable
+// revision — whatever is or is not yet known about the canary revision (its pod-template-hash is still empty for a
+// Deployment whose canary pods do not exist yet).
+func VerifC03_PatchStableServicePinsBeforeTheFirstBatch() {
+	w := mSetup(false)
+	if verifrt.Bool("ctx.canaryRevisionNotKnownYet") {
+		w.ctx.CanaryRevision = ""
+	}
+	m := NewTrafficRoutingManager(w.cli)
+	retry, err := m.PatchStableService(w.ctx)
+	if err != nil || retry {
+		verifrt.Cover("C03.pin.retry")
+		return
+	}
+	verifrt.Cover("C03.pin.done")
+	pinnedBefore := w.stable.Spec.Selector[mKey] == "rev-stable"
+	patched := false
+	for _, wr := range w.cli.Writes("patch", "Service") {
+		if wr.Obj.GetName() == "svc" {
+			v, ok := verifrt.JSONGet(wr.Body, "spec", "selector", mKey)
+			patched = patched || (ok && v == "rev-stable")
+		}
+	}
+	verifrt.Assert(pinnedBefore || patched, "C03.pin.doneOnlyWhenStableServiceSelectsTheStableRevision")
+}
